@@ -228,6 +228,10 @@ def main(argv=None):
             json.dump({"format": 1, "property": prop, "oracle": fnd["oracle"], "finding": fnd, "descriptor": md,
                        "pythonhashseed": 0, "library_rev": rev, "library_dirty": dirty, "classified": kid}, f, indent=1, default=str)
         print(f"KNOWN-FINDING: property={prop} {kid}: {entry['text']} ({n} runs; replay={path})")
+    # listed open findings this run did not reach (rare histories in a short budget): still one line each
+    for k in known.get("findings", []):
+        if k.get("property") == prop and k.get("status", "open") == "open" and k["id"] not in known_hits:
+            print(f"KNOWN-FINDING: property={prop} {k['id']}: {k['text']} (listed in known_findings.json; not reached by this run's sample)")
     if nonreplayable and n_viol == 0 and rc == 0:
         rc = 2   # something fired that no fresh process reproduces: a harness problem, never a pass
     unclassified_rest = sum(len(vs) for vs in seen_oracles.values()) - n_done
